@@ -98,6 +98,14 @@ def gidxGo : Nat → List Text → List (Nat × Text)
 
 def gidx (S : Segmenter) (t : Text) : List (Nat × Text) := gidxGo 0 (S.seg t)
 
+/-- `str::is_char_boundary` -/
+def isCharBoundary (t : Text) (p : Nat) : Bool := (splitAtByte t p).isSome
+
+/-- `while !s.is_char_boundary(m) { m -= 1 }` (fuel = `m`; offset 0 is always a boundary) -/
+def floorBoundary (t : Text) : Nat → Nat
+  | 0 => 0
+  | m + 1 => if isCharBoundary t (m + 1) then m + 1 else floorBoundary t m
+
 /-- `RawVec::grow_amortized` seen through `String::capacity()` -/
 def growCap (cap newLen : Nat) : Nat :=
   if newLen > cap then max (max (2 * cap) newLen) 8 else cap
@@ -169,7 +177,8 @@ def prevPos (S : Segmenter) (lb : LB) (n : Nat) : Except Panic (Option Nat) :=
 def pwInner (U : UData) (d : Word) : (Nat × Text) → List (Nat × Text) → Option (Nat × List (Nat × Text))
   | _, [] => none
   | (j, y), (i, x) :: rest =>
-    if isStartOfWord U d x y then some (j, rest) else pwInner U d (i, x) rest
+    -- on `break 'inner` the code keeps `x` for the next outer iteration (`carry = gi`)
+    if isStartOfWord U d x y then some (j, (i, x) :: rest) else pwInner U d (i, x) rest
 
 /-- outer loop of `prev_word_pos` (`for _ in 0..n`); the result is `sow` -/
 def pwOuter (U : UData) (d : Word) : Nat → Nat → List (Nat × Text) → Nat
@@ -196,9 +205,12 @@ inductive NwRes
 def nwInner (U : UData) (a : At) (d : Word) : (Nat × Text) → List (Nat × Text) → NwRes
   | gi, [] => .out gi
   | (i, x), (j, y) :: rest =>
-    if a == .start && isStartOfWord U d x y then .found j (i, x) rest
+    -- on `break 'inner` the code keeps `gj` for the next outer iteration (`carry = gj`), except for
+    -- `At::BeforeEnd`
+    if a == .start && isStartOfWord U d x y then .found j (i, x) ((j, y) :: rest)
     else if a != .start && isEndOfWord U d x y then
-      .found (if d == .emacs || a == .afterEnd then j else i) (i, x) rest
+      .found (if d == .emacs || a == .afterEnd then j else i) (i, x)
+        (if a != .beforeEnd then (j, y) :: rest else rest)
     else nwInner U a d (j, y) rest
 
 /-- outer loop of `next_word_pos`; result = `(wp, gi)` after the loop -/
@@ -211,9 +223,9 @@ def nwOuter (U : UData) (a : At) (d : Word) :
     | .out gi => (0, some gi)
     | .found wp gi rest' => nwOuter U a d n wp (some gi) rest'
 
-/-- `next_word_pos` -/
-def nextWordPos (S : Segmenter) (U : UData) (lb : LB) (pos : Nat) (a : At) (d : Word) (n : Nat) :
-    Except Panic (Option Nat) :=
+/-- `next_word_pos_`; `range`: the result delimits a range to kill/copy -/
+def nextWordPosR (S : Segmenter) (U : UData) (lb : LB) (pos : Nat) (a : At) (d : Word) (n : Nat)
+    (range : Bool) : Except Panic (Option Nat) :=
   if pos == lb.len then pure none
   else do
     let s ← sliceFrom lb.buf pos
@@ -221,12 +233,16 @@ def nextWordPos (S : Segmenter) (U : UData) (lb : LB) (pos : Nat) (a : At) (d : 
     let (gi0, gis) := if a == .beforeEnd then (gis.head?, gis.drop 1) else (none, gis)
     let (wp, gi) := nwOuter U a d n 0 gi0 gis
     if wp == 0 then
-      if d == .emacs || a == .afterEnd then pure (some lb.len)
+      if range || d == .emacs || a == .afterEnd then pure (some lb.len)
       else
         match gi with
         | some (i, _) => if i != 0 then pure (some (i + pos)) else pure none
         | none => pure none
     else pure (some (wp + pos))
+
+/-- `next_word_pos` -/
+def nextWordPos (S : Segmenter) (U : UData) (lb : LB) (pos : Nat) (a : At) (d : Word) (n : Nat) :
+    Except Panic (Option Nat) := nextWordPosR S U lb pos a d n false
 
 /-- loop of `n_lines_up` -/
 def nluLoop (buf : Text) : Nat → Nat → Except Panic Nat
@@ -270,7 +286,9 @@ def nLinesDown (lb : LB) (n : Nat) : Except Panic (Option (Nat × Nat)) := do
   | some off =>
     let e := lb.pos + off + 1
     let pre ← sliceTo lb.buf lb.pos
-    let start := (rfindChar '\n' pre).getD 0
+    let start := match rfindChar '\n' pre with
+      | some i => i + 1
+      | none => 0
     let e ← nldLoop lb.buf n e
     pure (some (start, e))
 
@@ -280,9 +298,13 @@ def searchCharPos (S : Segmenter) (lb : LB) (cs : CharSearch) (n : Nat) : Except
   | .backward c | .backwardAfter c =>
     let pre ← sliceTo lb.buf lb.pos
     let r := (((occ c pre).reverse).take n).getLast?
-    match cs with
-    | .backwardAfter _ => pure (r.map (· + c.utf8Size))
-    | _ => pure r
+    match cs, r with
+    | .backwardAfter _, some p => do
+      let mid ← slice lb.buf p lb.pos
+      match (S.seg mid).head? with
+      | some g => pure (some (p + blen g))
+      | none => pure (some (p + c.utf8Size))
+    | _, _ => pure r
   | .forward c | .forwardBefore c =>
     match ← graphemeAtCursor S lb with
     | none => pure none
@@ -295,11 +317,11 @@ def searchCharPos (S : Segmenter) (lb : LB) (cs : CharSearch) (n : Nat) : Except
         | some p =>
           match cs with
           | .forwardBefore _ => do
-            let pre ← sliceTo lb.buf (shift + p)
-            match pre.getLast? with
+            let mid ← slice lb.buf lb.pos (shift + p)
+            match (S.seg mid).getLast? with
             | none => .error .panic
-            | some ch =>
-              if ch.utf8Size ≤ shift + p then pure (some (shift + p - ch.utf8Size)) else .error .panic
+            | some g =>
+              if blen g ≤ shift + p then pure (some (shift + p - blen g)) else .error .panic
           | _ => pure (some (shift + p))
       else pure none
 
@@ -324,7 +346,7 @@ def copy (S : Segmenter) (U : UData) (lb : LB) (mvt : Movement) : Except Panic (
       let start ← lb.startOfLine
       let e ← lb.endOfLine
       if start == e then pure none else do
-        let t ← slice lb.buf start lb.pos
+        let t ← slice lb.buf start e
         pure (some t)
     | .beginningOfLine => do
       let start ← lb.startOfLine
@@ -334,11 +356,19 @@ def copy (S : Segmenter) (U : UData) (lb : LB) (mvt : Movement) : Except Panic (
     | .viFirstPrint =>
       if lb.pos == 0 then pure none
       else do
-        match ← nextWordPos S U lb 0 .start .big 1 with
+        let first ← match lb.buf.head? with
+          | some c => if U.ws c then nextWordPos S U lb 0 .start .big 1 else pure (some 0)
+          | none => pure (some 0)
+        match first with
         | none => pure none
-        | some p => do
-          let t ← slice lb.buf p lb.pos
-          pure (some t)
+        | some p =>
+          if p < lb.pos then do
+            let t ← slice lb.buf p lb.pos
+            pure (some t)
+          else if p > lb.pos then do
+            let t ← slice lb.buf lb.pos p
+            pure (some t)
+          else pure none
     | .endOfLine => do
       let e ← lb.endOfLine
       if lb.pos == e then pure none else do
@@ -360,7 +390,7 @@ def copy (S : Segmenter) (U : UData) (lb : LB) (mvt : Movement) : Except Panic (
         let t ← slice lb.buf p lb.pos
         pure (some t)
     | .forwardWord n a d => do
-      match ← nextWordPos S U lb lb.pos a d n with
+      match ← nextWordPosR S U lb lb.pos a d n true with
       | none => pure none
       | some p => do
         let t ← slice lb.buf lb.pos p
@@ -465,6 +495,14 @@ def insertStr (S : Segmenter) (U : UData) (idx : Nat) (s : Text) : LM Bool := fu
          [.insStr idx s])
   | none => .error .panic
 
+/-- `self.buf.insert(self.pos, ch); cl.insert_char(self.pos, ch)` -/
+def insertCharAtPos (ch : Char) : LM Unit := fun lb =>
+  match splitAtByte lb.buf lb.pos with
+  | some (x, z) =>
+    .ok ((), { lb with buf := x ++ [ch] ++ z, cap := growCap lb.cap (blen lb.buf + ch.utf8Size) },
+         [.insChar lb.pos ch])
+  | none => .error .panic
+
 /-- `set_pos` -/
 def setPosChecked (S : Segmenter) (U : UData) (p : Nat) : LM Unit := fun lb =>
   if p ≤ lb.len then .ok ((), { lb with pos := p }, []) else .error .panic
@@ -477,6 +515,7 @@ def update (S : Segmenter) (U : UData) (buf : Text) (pos : Nat) : LM Unit := do
   let lb ← get
   let mx := lb.cap
   if lb.mustTruncate (blen buf) then
+    let mx := floorBoundary buf mx
     let cut ← lift (sliceTo buf mx)
     let _ ← insertStr S U 0 cut
     setPos (min mx pos)
@@ -491,13 +530,7 @@ def insert (S : Segmenter) (U : UData) (ch : Char) (n : Nat) : LM (Option Bool) 
   if lb.mustTruncate (lb.len + shift) then return none
   let push := lb.pos == lb.len
   if n == 1 then
-    -- `self.buf.insert(self.pos, ch); cl.insert_char(self.pos, ch)`
-    (fun lb =>
-      match splitAtByte lb.buf lb.pos with
-      | some (x, z) =>
-        .ok ((), { lb with buf := x ++ [ch] ++ z, cap := growCap lb.cap (blen lb.buf + ch.utf8Size) },
-             [.insChar lb.pos ch])
-      | none => .error .panic : LM Unit)
+    insertCharAtPos ch
   else
     let _ ← insertStr S U lb.pos (List.replicate n ch)
   setPos (lb.pos + shift)
@@ -684,7 +717,7 @@ def moveToLineUp (S : Segmenter) (U : UData) (n : Nat) (promptCol : Nat) : LM Bo
     let line ← lift (slice lb.buf ds de)
     match (gidx S line)[column - offset]? with
     | some (idx, _) => setPos (ds + idx)
-    | none => setPos off
+    | none => setPos de
     return true
   | none => return false
 
@@ -735,7 +768,7 @@ def moveTo (S : Segmenter) (U : UData) (cs : CharSearch) (n : Nat) : LM Bool := 
 
 /-- `delete_word` -/
 def deleteWord (S : Segmenter) (U : UData) (a : At) (d : Word) (n : Nat) : LM Bool := do
-  match ← ro (fun lb => nextWordPos S U lb lb.pos a d n) with
+  match ← ro (fun lb => nextWordPosR S U lb lb.pos a d n true) with
   | some p =>
     let lb ← get
     let _ ← drain lb.pos p .forward
@@ -842,11 +875,21 @@ def kill (S : Segmenter) (U : UData) (mvt : Movement) : LM Bool := do
     | .viCharSearch n cs => deleteTo S U cs n
     | .lineUp n => do
       match ← ro (nLinesUp · n) with
-      | some (a, b) => deleteRange S U a b; pure true
+      | some (a, b) =>
+        let lb ← get
+        let suf ← lift (sliceFrom lb.buf lb.pos)
+        let last := (findChar '\n' suf).isNone
+        let a := if last && a > 0 then a - 1 else a
+        deleteRange S U a b; pure true
       | none => pure false
     | .lineDown n => do
       match ← ro (nLinesDown · n) with
-      | some (a, b) => deleteRange S U a b; pure true
+      | some (a, b) =>
+        let lb ← get
+        let mid ← lift (slice lb.buf a b)
+        let last := decide ((mid.filter (· == '\n')).length ≤ n)
+        let a := if last && a > 0 then a - 1 else a
+        deleteRange S U a b; pure true
       | none => pure false
     | .viFirstPrint => pure false
     | .endOfBuffer => killBuffer S U
@@ -877,7 +920,7 @@ def dedentLines (ws : Char → Bool) (amount : Nat) : List Text → Nat → LM U
   | [], _ => pure ()
   | line :: rest, index => do
     let mx := blen line - blen (line.dropWhile ws)
-    let deleting := min mx amount
+    let deleting := floorBoundary line (min mx amount)
     let _ ← drain index (index + deleting) .forward
     let lb ← get
     if lb.pos ≥ index then
@@ -907,15 +950,23 @@ def indent (S : Segmenter) (U : UData) (mvt : Movement) (amount : Nat) (dedent :
     | .forwardWord n a d => do
       let r ← lift (nextWordPos S U lb lb.pos a d n)
       pure (r.map (fun p => (lb.pos, p)))
-    | .lineUp n => lift (nLinesUp lb n)
-    | .lineDown n => lift (nLinesDown lb n)
+    | .lineUp n => do
+      let r ← lift (nLinesUp lb n)
+      pure (r.map (fun (a, _) => (a, lb.pos)))
+    | .lineDown n => do
+      match ← lift (nLinesDown lb n) with
+      | none => pure none
+      | some (_, b) =>
+        let pre ← lift (sliceTo lb.buf b)
+        if b > lb.pos && pre.getLast? == some '\n' then pure (some (lb.pos, b - 1))
+        else pure (some (lb.pos, b))
   let (start, e) := pair.getD (lb.pos, lb.pos)
   let pre ← lift (sliceTo lb.buf start)
   let start := match rfindChar '\n' pre with
     | some p => p + 1
     | none => 0
   let suf ← lift (sliceFrom lb.buf e)
-  let e := match rfindChar '\n' suf with
+  let e := match findChar '\n' suf with
     | some p => e + p
     | none => lb.len
   let region ← lift (slice lb.buf start e)
